@@ -55,7 +55,12 @@ def m_taint_wrap(it, case):
     return True
 
 
-MATCHERS = {'taint_value_wraps_in_time_unix': m_taint_wrap}
+def m_doc_key_timeout(it, case):
+    """T4: only the documented-but-undecoded key scale_up_cool_down_timeout."""
+    return it['detail'] == 'C16:key-not-honoured:scale_up_cool_down_timeout'
+
+
+MATCHERS = {'taint_value_wraps_in_time_unix': m_taint_wrap, 'doc_key_scale_up_cool_down_timeout': m_doc_key_timeout}
 
 
 def match(prop, it, root):
